@@ -14,6 +14,9 @@
 From Coq Require Import ZArith List Bool String.
 Require Import JV.Model.ResTracker JV.Proofs.ResTracker JV.Proofs.ResTrackerSpec.
 Require Import JV.Model.TempManager JV.Proofs.TempManager.
+Require JV.Model.TrackerStartup JV.Proofs.TrackerStartup.
+Module TS := JV.Model.TrackerStartup.
+Module TSP := JV.Proofs.TrackerStartup.
 Import ListNotations.
 Open Scope Z_scope.
 
@@ -221,6 +224,35 @@ Theorem C20_manager_order_matters :
   disk_after_kill (run_events_swapped world0 C20_order_witness) = ([1%nat], []).
 Proof. split; vm_compute; reflexivity. Qed.
 Print Assumptions C20_manager_order_matters.
+
+(* ---------------------------------------------------------------------------------------------
+   Signals (Model/TrackerStartup.v): ensure_running spawns the tracker with SIGINT/SIGTERM blocked;
+   main() first ignores both, then lifts the mask.  A schedule interleaves signal arrivals
+   (to the pid or the group: the same for the receiving process) with the start-up instructions
+   and, afterwards, with the serving loop. *)
+
+(* a SIGINT/SIGTERM at ANY point of the start-up or later never terminates the tracker, and once
+   the start-up is over both signals are ignored and unblocked *)
+Theorem C20_signal_safe : forall sched,
+  TS.p_alive (TS.run_sched (TS.spawn true TS.code_startup) sched) = true /\
+  (TS.p_pc (TS.run_sched (TS.spawn true TS.code_startup) sched) = [] ->
+   forall s, TS.ignored (TS.get (TS.run_sched (TS.spawn true TS.code_startup) sched) s) = true).
+Proof.
+  intros sched. destruct (TSP.run_sched_safe sched _ TSP.spawn_safe) as [A H]. split; [exact A|].
+  intros P s. destruct (H s) as [I|[_ F]]; [exact I|]. rewrite P in F. destruct F.
+Qed.
+Print Assumptions C20_signal_safe.
+
+(* FULL STATEMENT for any order of the start-up (false): refuted for the swapped order
+   (unblock, then ignore): a signal that became pending while the tracker was starting is
+   delivered with its default action.  Also refuted without the mask set by ensure_running. *)
+Theorem C20_signal_order_matters :
+  (exists sched, TS.p_alive (TS.run_sched (TS.spawn true TS.swapped_startup) sched) = false) /\
+  (exists sched, TS.p_alive (TS.run_sched (TS.spawn false TS.code_startup) sched) = false).
+Proof.
+  split; [exists [TS.SSignal TS.SIGTERM; TS.SStep] | exists [TS.SSignal TS.SIGINT]]; vm_compute; reflexivity.
+Qed.
+Print Assumptions C20_signal_order_matters.
 
 (* non-vacuity: a history with a name containing ':', an unbalanced request, malformed lines, a
    deletion in the loop and a non-trivial EOF phase (file before folder, insertion order) *)
